@@ -29,7 +29,54 @@ func init() {
 	})
 }
 
+// c12Many: more than 64 options under [OPTIONS], env values on some of the last ones (beyond any machine-word bitset)
+func c12Many(c *core.Ctx) {
+	n := 66 + c.R.Intn(15)
+	p := &Prog{}
+	for i := 0; i < n; i++ {
+		o := &OptDecl{Names: []string{fmt.Sprintf("opt%02d", i)}}
+		if i >= 60 && c.R.Intn(2) == 0 || c.R.Intn(20) == 0 {
+			o.EnvSet = true
+		}
+		p.Opts = append(p.Opts, o)
+	}
+	x := &ArgDecl{Name: "X", Multi: true}
+	p.Args = []*ArgDecl{x}
+	p.AST = &Node{K: KSeq, Kids: []*Node{{K: KOptional, Kids: []*Node{{K: KAllOpts}}}, {K: KArg, Arg: x}}}
+	p.Spec = p.AST.String()
+	var argv []string
+	want := map[*OptDecl][]string{}
+	for k := 0; k < 1+c.R.Intn(4); k++ {
+		o := p.Opts[c.R.Intn(n)]
+		v := gen.Vals[c.R.Intn(5)]
+		argv = append(argv, o.Dashed()[0]+"="+v)
+		want[o] = append(want[o], v)
+	}
+	argv = append(argv, "positional")
+	d := CaseDesc{Decl: fmt.Sprintf("%d valued options opt00..opt%02d, env-backed beyond position 60", n, n-1), Spec: p.Spec, Argv: argv}
+	c.Journal(d)
+	c.Nontrivial("M", fmt.Sprintf("%q", argv), fmt.Sprint(n))
+	obs := drive.Run(drive.Single(p), argv)
+	c.LibDone()
+	c.Eval()
+	if !obs.Accepted() {
+		c.Violation("a command line that only uses declared options is rejected (many options, some with an environment value)", map[string]interface{}{"outcome": drive.OutcomeKey(&Prog{}, obs)}, nil)
+		return
+	}
+	for o, vs := range want {
+		if fmt.Sprintf("%q", obs.Bind[0].Opts[o]) != fmt.Sprintf("%q", vs) {
+			c.Violation(fmt.Sprintf("option %s written %q, bound %q", o.Dashed()[0], vs, obs.Bind[0].Opts[o]), nil, nil)
+			return
+		}
+	}
+	c.Inc("M_many_options_accepted")
+}
+
 func runC12(c *core.Ctx) {
+	if c.Index%40 == 39 {
+		c12Many(c)
+		return
+	}
 	switch c.Index % 5 {
 	case 3:
 		c12Required(c)
@@ -125,6 +172,10 @@ func c12Required(c *core.Ctx) {
 	pool := gen.OptPool()
 	o := pool[c.R.Intn(len(pool))]
 	o.EnvSet = true
+	if !o.Flag {
+		// any non-empty text is a valid value for a string-like option, whatever characters it contains
+		o.EnvVal = []string{"envval", "$tr0ng", "$1", "a$b", "${x}", "100%", "%s", " ", "-", "--"}[c.R.Intn(10)]
+	}
 	x := &ArgDecl{Name: "X", Multi: true}
 	name := o.Dashed()[c.R.Intn(len(o.Dashed()))]
 	opt := &Node{K: KOpt, Opt: o, Name: name}
